@@ -212,6 +212,22 @@ CHECKS["C13"] = dict(
         "linearity in the residuals (normal forms C05-C07) with the reflection-invariant time step.",
    ref="§6 C13")
 
+CHECKS["C09"] = dict(
+   technique="contract-based deductive verification: limiter through its C12 contract, fvm1d.rhs / time step / minimum "
+             "executed symbolically, local step lemma at generic + seam cells (z3); Shu-Osher witness (C05) and Harten's "
+             "lemma (Lean/Mathlib) for SSP stages and TVD; Burgers-MUSCL: labelled bounded stand-in",
+   text="Proof for all data, symbolic ncell: (1) first-order upwind linear convection on ANY strictly increasing mesh, either "
+        "sign of a, CFL<=1: one explicit Euler step puts every cell between itself and its upwind neighbour (incremental "
+        "coefficient in [0,1]); (2) MUSCL with ANY limiter satisfying the C12 contract on the uniform periodic mesh, either "
+        "sign of a, CFL<=1/2: the same local bound at the four seam cells and a generic cell. Hence the range is kept, and "
+        "by Harten's lemma the total variation does not increase; rk2_heun/rk3ssp by the Shu-Osher witness of C05. "
+        "Burgers with MUSCL: NOT proved -- bounded stand-in on the real solver (range and TV of one step over fixed sign "
+        "patterns and seeded random fields, 4 limiters x 3 integrators x 3 CFL), reported under bounded_standins; the "
+        "deductive local lemma for Burgers is attempted in the thorough tier only (144-case split, partly undecided).",
+   note=TB + "; Harten's lemma is a Lean 4/Mathlib proof (lean/Harten.lean) re-checked in the thorough tier only; Burgers "
+        "part bounded, never counted in obligations/discharged.",
+   ref="§6 C09")
+
 NA = {
  "C04": "convergence of a solve at the design order under mesh refinement is a limit statement over a family of meshes "
         "(and an empirical one for Riemann problems; the reference solutions wrap the external aerokit): no pre/postcondition "
